@@ -6,6 +6,11 @@
 #define C02_GHOST_DEFINE
 #include "c02_aes_ghost.h"
 #include "crypto/crypto_aes_aesni.c"
+/* the AES-NI instruction models share the static specification functions of spec/aes_spec.h with this translation
+   unit (goto-cc cannot link two translation units that both carry the same static functions), so the model file is
+   included rather than listed under "models" */
+#include "aes_spec.h"
+#include "x86_aesni.c"
 
 /* an expanded-key object with arbitrary round keys, nr in {10, 14}, rkeys aligned inside rkeys_buf */
 #define AESNI_MK_KEY(K) \
